@@ -58,3 +58,174 @@ def run(chk, repo, tier):
     chk.instance(F1, f'{n_sites} model-wide substitution site(s) in pharmpy.modeling')
     if n_sites == 0:
         raise AnalysisError('F1: no model-wide substitution found (rename_symbols moved?)')
+    run_more(chk, repo, fields)
+
+
+# bare-statement calls whose dropped result was read and confirmed harmless
+DISCARD_OK = {
+    ('pharmpy.model.external.nlmixr.model', 'convert_model', 'update_source'):
+        'the code property regenerates the source on access; the stale internals.src is never read',
+    ('pharmpy.model.external.rxode.model', 'convert_model', 'update_source'):
+        'same as nlmixr',
+}
+PURE_METHODS = {'subs', 'replace', 'xreplace', 'reassign', 'update_source', 'simplify', 'expand', 'set_initial_estimates',
+                'set_column', 'set_types', 'insert_before', 'insert_after', 'remove_symbol_definitions', 'join', 'unjoin',
+                'derive', 'fix', 'unfix', 'full_expression'}
+FN_FIELDS = ('parameters', 'random_variables', 'statements', 'dependent_variables', 'observation_transformation',
+             'dataset', 'datainfo')
+
+
+def run_more(chk, repo, fields):
+    F2 = chk.rule('F2', 'format converters carry every function-defining Model field over to the new model', floor=12)
+    F3 = chk.rule('F3', 'get_observation_expression starts from the last assignment of the dependent variable and '
+                        'substitutes only definitions that precede it', floor=2)
+    F4 = chk.rule('F4', 'results of immutable-API calls (subs, replace, reassign, update_source, model-returning modeling '
+                        'functions) are not discarded', floor=400)
+    # ---------------------------------------------------------------- F2
+    for modname in ('pharmpy.model.external.generic.generic', 'pharmpy.model.external.nonmem.model'):
+        m = repo.module(modname)
+        f = m.functions.get('convert_model')
+        if f is None:
+            raise AnalysisError(f'{modname}.convert_model not found')
+        src = f.params[0]
+        carried: dict[str, str] = {}
+        for n in walk_no_nested(f.node):
+            if isinstance(n, ast.Call) and (dotted(n.func) == 'Model' or (isinstance(n.func, ast.Attribute)
+                                                                          and n.func.attr == 'replace')):
+                for kw in n.keywords:
+                    if kw.arg:
+                        carried[kw.arg] = unparse(kw.value)
+                    elif isinstance(kw.value, ast.DictComp):
+                        # **{attr: getattr(model, attr) for attr in TUPLE}
+                        gen = kw.value.generators[0]
+                        seq = gen.iter
+                        if isinstance(seq, ast.Name):
+                            seq = m.globals_.get(seq.id)
+                        if not isinstance(seq, (ast.Tuple, ast.List)):
+                            raise AnalysisError(f'F2: cannot resolve the attribute list in {unparse(n)[:80]}')
+                        for e in seq.elts:
+                            if isinstance(e, ast.Constant):
+                                carried[e.value] = f'getattr({src}, {e.value!r})'
+            if isinstance(n, ast.Assign) and isinstance(n.targets[0], ast.Attribute) \
+                    and n.targets[0].attr.startswith('_') and isinstance(n.value, ast.Attribute):
+                carried[n.targets[0].attr.lstrip('_')] = unparse(n.value)
+        for fld in FN_FIELDS:
+            if fld not in fields:
+                raise AnalysisError(f'Model has no field {fld}')
+            v = carried.get(fld)
+            from_src = v is not None and (f'{src}.{fld}' in v or f'getattr({src}, {fld!r})' == v)
+            chk.instance(F2, f'{modname}.convert_model: {fld} <- {v}')
+            if v is None:
+                chk.violation(F2, m.rel, 'convert_model', f'{fld} not carried over',
+                              f'the converted model is built without `{fld}` of the source model (default is used)',
+                              line=f.node.lineno,
+                              witness='set_dtbs_error_model(model) then convert_model(model, "generic"): the transformed '
+                                      'observation of the source model becomes the identity')
+            elif not from_src:
+                chk.violation(F2, m.rel, 'convert_model', f'{fld} = {v}',
+                              f'`{fld}` of the converted model is not taken from the source model', line=f.node.lineno,
+                              advisory=True, witness='a source model with a non-default value of this field')
+    # ---------------------------------------------------------------- F3
+    em = repo.module('pharmpy.modeling.expressions')
+    f = em.functions.get('get_observation_expression')
+    if f is None:
+        raise AnalysisError('get_observation_expression not found')
+    loops = [n for n in walk_no_nested(f.node) if isinstance(n, ast.For)]
+    search = next((L for L in loops if any(isinstance(x, ast.Break) for x in ast.walk(L))), None)
+    if search is None:
+        raise AnalysisError('F3: search loop for the DV statement not recognised')
+
+    def descending(it):
+        if isinstance(it, ast.Call) and dotted(it.func) == 'reversed':
+            return True
+        if isinstance(it, ast.Call) and dotted(it.func) == 'range' and len(it.args) == 3:
+            st_ = it.args[2]
+            return isinstance(st_, ast.UnaryOp) and isinstance(st_.op, ast.USub)
+        return False
+    ok = descending(search.iter)
+    chk.instance(F3, f'DV statement search `for {unparse(search.target)} in {unparse(search.iter)}` runs from the end: {ok}')
+    if not ok:
+        chk.violation(F3, em.rel, f.qualname, f'for {unparse(search.target)} in {unparse(search.iter)}',
+                      'the first assignment of the dependent variable is used; a later re-assignment (Y = Y*2, IF-blocks '
+                      'split into several statements) is ignored', line=search.lineno,
+                      witness='$PRED with Y = IPRED + EPS(1) followed by Y = Y*2: the observation expression, the '
+                              'predictions and the gradients are those of the first statement')
+    ivar = unparse(search.target).split(',')[0].strip('( ')
+    fe = [c for c in calls_in(f.node) if isinstance(c.func, ast.Attribute) and c.func.attr == 'full_expression']
+    subs_loops = [L for L in loops if L is not search and any(
+        isinstance(c, ast.Call) and isinstance(c.func, ast.Attribute) and c.func.attr == 'subs' for c in ast.walk(L))]
+    bounded = False
+    desc = ''
+    for L in subs_loops:
+        it = L.iter
+        if isinstance(it, ast.Call) and dotted(it.func) == 'range' and it.args and ivar in {x.id for x in ast.walk(it.args[0])
+                                                                                        if isinstance(x, ast.Name)} \
+                and descending(it):
+            bounded = True
+            desc = f'for {unparse(L.target)} in {unparse(it)}'
+    for c in fe:
+        recv = c.func.value
+        if isinstance(recv, ast.Subscript) and isinstance(recv.slice, ast.Slice) and recv.slice.upper is not None \
+                and ivar in {x.id for x in ast.walk(recv.slice.upper) if isinstance(x, ast.Name)}:
+            bounded = True
+            desc = unparse(c)
+        else:
+            bounded = False
+            desc = unparse(c)
+            break
+    chk.instance(F3, f'back-substitution bounded by the DV statement index `{ivar}`: {bounded} ({desc})')
+    if not bounded:
+        chk.violation(F3, em.rel, f.qualname, desc or 'back-substitution',
+                      'definitions that come after the dependent variable statement are substituted into it', line=f.node.lineno,
+                      witness='Y = IPRED + W*EPS(1) followed by IPRED = LOG(IPRED + 0.001): the extracted observation, '
+                              'prediction and gradient expressions use the later IPRED')
+    # ---------------------------------------------------------------- F4
+    mm = repo.module('pharmpy.modeling')
+    allv = mm.globals_.get('__all__')
+    exported = {e.value for e in allv.elts if isinstance(e, ast.Constant)} if isinstance(allv, (ast.List, ast.Tuple)) else set()
+    returning_model = set()
+    for name in exported:
+        r = repo.resolve(mm, name)
+        if not (r and r[0] == 'func'):
+            continue
+        g = r[1]
+        if g.node.returns is not None and unparse(g.node.returns) in ('Model', 'pharmpy.model.Model'):
+            returning_model.add(name)
+        elif g.node.returns is None and g.params and g.params[0] == 'model' and any(
+                isinstance(n, ast.Return) and n.value is not None and (
+                    unparse(n.value) == 'model' or unparse(n.value).startswith(('model.update_source(', 'model.replace(')))
+                for n in walk_no_nested(g.node)):
+            returning_model.add(name)
+    # functions whose purpose is a side effect (files); their returned model is optional for the caller
+    returning_model -= {n for n in returning_model if n.startswith(('write_', 'print_', 'bump_'))}
+    used = 0
+    for fn in repo.all_funcs():
+        for s_ in walk_no_nested(fn.node):
+            for c in ([s_.value] if isinstance(s_, ast.Expr) and isinstance(s_.value, ast.Call) else []):
+                what = None
+                if isinstance(c.func, ast.Attribute) and c.func.attr in PURE_METHODS:
+                    if any(k.arg == 'inplace' for k in c.keywords) or dotted(c.func) in ('os.replace', 'os.path.join'):
+                        continue
+                    what = c.func.attr
+                elif isinstance(c.func, ast.Name) and c.func.id in returning_model:
+                    what = c.func.id
+                if what is None:
+                    continue
+                exc = DISCARD_OK.get((fn.module.name, fn.name, what))
+                outside = fn.module.name == 'pharmpy.cli'
+                chk.violation(F4, fn.module.rel, fn.qualname, unparse(s_)[:100],
+                              f'the result of `{what}` is dropped (pharmpy objects are immutable, the call has no effect)'
+                              + (f' [listed: {exc}]' if exc else '') + (' [command line front end, outside this property]'
+                                                                       if outside else ''),
+                              line=s_.lineno, advisory=bool(exc) or outside,
+                              witness='a symbol assigned before the ODE system and re-assigned after it (CL = CL*24 in '
+                                      '$ERROR) with make_declarative: the substituted ODE system is thrown away and the rates '
+                                      'refer to a symbol that is only defined afterwards')
+        for c in calls_in(fn.node):
+            if (isinstance(c.func, ast.Attribute) and c.func.attr in PURE_METHODS) or \
+                    (isinstance(c.func, ast.Name) and c.func.id in returning_model):
+                used += 1
+    chk.instance(F4, f'calls of immutable-API methods / model-returning functions examined', n=used)
+    chk.extra['model_returning_functions'] = len(returning_model)
+    if len(returning_model) < 50:
+        raise AnalysisError(f'F4: only {len(returning_model)} model-returning modeling functions recognised')
